@@ -165,6 +165,8 @@ func isResponderAuthorized(ocspResponse *ocsp.Response, issuer *x509.Certificate
 func (c *OCSPRevocationChecker) Provision(ocspConfig *config.OCSPConfig, logger *zap.Logger) error {
 	c.ocspConfig = ocspConfig
 	c.logger = logger
+	//the cache table is looked up once here, concurrent lookups only read the field
+	c.cache = cache2go.Cache("ocsp_client")
 	return nil
 }
 
@@ -225,8 +227,6 @@ func (c *OCSPRevocationChecker) filterHTTPOCSPServers(ocspServerList []string) [
 }
 
 func (c *OCSPRevocationChecker) tryGetResponseFromCache(cacheKey string) (*core.RevocationStatus, error) {
-	c.cache = cache2go.Cache("ocsp_client")
-
 	// Let's retrieve the item from the cache.
 	res, err := c.cache.Value(cacheKey)
 	if err == nil {
